@@ -1,0 +1,26 @@
+//go:build verif
+// +build verif
+
+// Synchronous entry point to trieSync.processNodeData for the verification harness under /verif (C19, build tag
+// "verif").  Nothing here is compiled into a normal build.
+
+package downloader
+
+import (
+	"github.com/youchainhq/go-youchain/common"
+	"github.com/youchainhq/go-youchain/core/types"
+	"github.com/youchainhq/go-youchain/trie"
+)
+
+// VerifTrieSync wraps a trieSync that is never run: only its delivery path (hash the blob, hand it to the scheduler) is used.
+type VerifTrieSync struct{ s *trieSync }
+
+// VerifNewTrieSync builds the downloader's per-sync object around a scheduler, without a Downloader and without starting its loop.
+func VerifNewTrieSync(sched *trie.Sync) *VerifTrieSync {
+	return &VerifTrieSync{s: newTrieSync(nil, types.KindCht, nil, sched)}
+}
+
+// ProcessNodeData is trieSync.processNodeData.
+func (v *VerifTrieSync) ProcessNodeData(blob []byte) (bool, common.Hash, error) {
+	return v.s.processNodeData(blob)
+}
